@@ -130,8 +130,12 @@ class Command:
         Returns:
             set[RegRef]: set of subsystems the command depends on
         """
-        deps = self.op.measurement_deps | set(self.reg)
-        return deps
+        # RegRef hashes on (ind, active): a reference stored in ``measurement_deps`` before its
+        # subsystem was deleted hashes differently from the same object in ``self.reg``, so a plain
+        # set union would list that subsystem twice. Unify by subsystem index instead.
+        deps = {r.ind: r for r in self.op.measurement_deps}
+        deps.update({r.ind: r for r in self.reg})
+        return set(deps.values())
 
 
 class RegRef:
